@@ -1,4 +1,5 @@
 #include "c_dateutils.h"
+#include <limits.h>
 
 
 
@@ -52,7 +53,10 @@ int c_dateutils_add1month(int * date)
     }
     else
     {
-        /* change year */
+        /* change year (there is no year after the largest int) */
+        if(date[0] == INT_MAX)
+            return DATEUTILS_ERROR + __LINE__;
+
         date[1] = 1;
         date[0] += 1;
     }
@@ -83,6 +87,10 @@ int c_dateutils_add1day(int * date)
         return 0;
     }
     else if(date[2] == nbday) {
+        /* there is no year after the largest int */
+        if(date[1] >= 12 && date[0] == INT_MAX)
+            return DATEUTILS_ERROR + __LINE__;
+
         /* change month */
         date[2] = 1;
 
